@@ -259,7 +259,7 @@ func c20(c *core.Ctx) {
 	for _, x := range []struct{ m, add, dec string }{{"NotifyInflightAdded", "addInflight", "decInflight"}, {"NotifyMsgQueueAdded", "addQueueLen", "decQueueLen"}} {
 		f := p.Func("server", "(*queueNotifier)."+x.m)
 		c.Analysed(fname(f))
-		delta := f.Params[1]
+		delta := paramOf(f, 1)
 		for _, y := range []struct {
 			callee string
 			op     token.Token
@@ -367,7 +367,7 @@ func c20(c *core.Ctx) {
 	okMD := false
 	for _, cs := range ssax.Calls(nd, false, ssax.ByFunc(p.Func("server", "(*statsManager).messageDropped"))) {
 		args := ssax.Args(cs.Instr)
-		if fl.OnlyFrom(args[0], nd.Params[1].Name()+".QoS") && args[2] == ssa.Value(nd.Params[2]) {
+		if fl.OnlyFrom(args[0], paramOf(nd, 1).Name()+".QoS") && args[2] == ssa.Value(paramOf(nd, 2)) {
 			okMD = true
 		}
 	}
